@@ -52,12 +52,14 @@ type spemitFlags struct {
 	Existing    bool `json:"existing"`
 	SigParams   bool `json:"sigParams"`
 	SignedExact bool `json:"signedExact"`
+	Delivered   bool `json:"delivered"` // the URL / form action (scheme, host, path) is the idpURL given to Make*
 }
 
 type spemitIdpFlags struct {
 	NSAML   int  `json:"nSAML"`
 	Payload bool `json:"payload"`
 	RelayRT bool `json:"relayRT"`
+	DestOK  bool `json:"destOK"` // the IdP serving the URL the user agent is sent to accepts the message's Destination
 }
 
 type spemitPred struct {
@@ -72,6 +74,7 @@ type spemitVec struct {
 	Cfg  struct {
 		Query  string `json:"query"`
 		Method string `json:"method"`
+		MForm  string `json:"mform"` // exact | padded | case | suffixed ("" = exact)
 		Key    string `json:"key"`
 		NidFmt string `json:"nidfmt"`
 		Force  string `json:"force"`
@@ -83,11 +86,15 @@ type spemitVec struct {
 		Binding string   `json:"binding"`
 		Relay   []string `json:"relay"`
 		NameID  []string `json:"nameid"`
+		Dest    string   `json:"dest"` // first | second | custom ("" = first)
+		Swap    bool     `json:"swap"` // sp.IDPMetadata replaced between creation and rendering
 	} `json:"in"`
 	Class    string `json:"class"`
 	Required struct {
-		Form   string `json:"form"`
-		Policy string `json:"policy"`
+		Form     string `json:"form"`
+		Policy   string `json:"policy"`
+		NearMiss bool   `json:"nearmiss"`
+		OneStep  bool   `json:"onestep"`
 	} `json:"required"`
 	Pred struct {
 		Req spemitPred `json:"req"`
@@ -114,7 +121,24 @@ func (v *spemitVec) caseID() string {
 	if v.In.Fam == "config" {
 		id += fmt.Sprintf(":nidfmt=%s:force=%s:rac=%v", v.Cfg.NidFmt, v.Cfg.Force, v.Cfg.Rac)
 	}
+	// the round-3 dimensions appear only where they leave their default, so earlier keys stay what they were
+	if v.Cfg.MForm != "" && v.Cfg.MForm != "exact" {
+		id += ":form=" + v.Cfg.MForm
+	}
+	if v.In.Dest != "" && v.In.Dest != "first" {
+		id += ":dest=" + v.In.Dest
+	}
+	if v.In.Swap {
+		id += ":md=replaced"
+	}
 	return id
+}
+
+func (v *spemitVec) destClass() string {
+	if v.In.Dest == "" {
+		return "first"
+	}
+	return v.In.Dest
 }
 
 // ---------------------------------------------------------------------------
@@ -191,9 +215,22 @@ var spemitUnknownMethods = []string{
 	"http://www.w3.org/2000/09/xmldsig#rsa-sha256",
 	"http://www.w3.org/2007/05/xmldsig-more#sha256-rsa-MGF1",
 	"http://www.w3.org/2000/09/xmldsig#hmac-sha1",
-	"http://www.w3.org/2001/04/xmldsig-more#RSA-SHA256",
 	"rsa-sha256",
 	"urn:example:not-a-method",
+}
+
+// spemitNearMethods concretises cfg.mform: strings that are NOT the URI u although they resemble it.
+func spemitNearMethods(form, u string) []string {
+	switch form {
+	case "padded": // white space around it, a trailing newline
+		return []string{u + "\n", " " + u, u + " ", "\t" + u, u + "\r\n", " " + u + " ", "\n" + u}
+	case "case": // another letter case
+		i := strings.IndexByte(u, '#')
+		return []string{strings.ToUpper(u), u[:i+1] + strings.ToUpper(u[i+1:]), "HTTP" + u[4:], strings.Replace(u, "www.w3.org", "WWW.W3.ORG", 1)}
+	case "suffixed": // a trailing slash or fragment
+		return []string{u + "/", u + "#", u + "#v1", u + "/#"}
+	}
+	panic("unknown method form " + form)
 }
 
 var spemitHashOf = map[string]crypto.Hash{
@@ -219,8 +256,26 @@ func spemitKey(name string) *KeyPair {
 
 var spemitQueryReps = map[string][][2]string{ // concrete query, and the same as the decoded pairs "n=v;n=v"
 	"none": {{"", ""}},
-	"ab":   {{"a=b", "a=b"}, {"tenant=42", "tenant=42"}},
-	"abc":  {{"a=b&c", "a=b;c="}, {"tenant=42&debug", "tenant=42;debug="}, {"a=b&c=", "a=b;c="}},
+	"ab":   {{"a=b", "a=b"}, {"tenant=42", "tenant=42"}, {"hint=a%26b", "hint=a&b"}},
+	"abc":  {{"a=b&c", "a=b;c="}, {"tenant=42&debug", "tenant=42;debug="}, {"a=b&c=", "a=b;c="}, {"realm=staff&x", "realm=staff;x="}},
+}
+
+// where the IdP's endpoints are (spec: EP(at, query)); every location the message is NOT made for carries
+// the query spemitOtherQuery
+const spemitOtherQuery = "m=1"
+
+var spemitLocations = map[string]map[string]string{
+	"sso": {"first": idpSSOURL, "second": "https://idp.example.com/saml2/sso-alt", "custom": "https://login.tenant.example.net/t/acme/sso",
+		"moved": "https://idp.example.com/v2/sso", "moved2": "https://idp.example.com/v2/sso-alt"},
+	"slo": {"first": idpSLOURL, "second": "https://idp.example.com/saml2/slo-alt", "custom": "https://login.tenant.example.net/t/acme/slo",
+		"moved": "https://idp.example.com/v2/slo", "moved2": "https://idp.example.com/v2/slo-alt"},
+}
+
+func spemitSvc(kind string) string {
+	if kind == "authn" {
+		return "sso"
+	}
+	return "slo"
 }
 
 var spemitNidFormats = map[string]saml.NameIDFormat{
@@ -244,6 +299,10 @@ type spemitConc struct {
 	EntityIDSet bool   `json:"entity_id_set"`
 	OneStep     bool   `json:"one_step_api"`
 	Artifact    string `json:"artifact"`
+	// the idpURL handed to Make* ("" in replay files written before round 3: the metadata's first location)
+	DestURL string `json:"dest_url,omitempty"`
+	// the URI a near-miss method string resembles
+	MethodBase string `json:"method_base,omitempty"`
 }
 
 var spemitGivenIDs = []string{"id-9e61753d64e928af5a7a341a97f420c9", "_3c39bc0fe7b13769cab2f6f45eba801b1245264310738",
@@ -267,6 +326,17 @@ func spemitConcretise(v *spemitVec, rng *rand.Rand) *spemitConc {
 		c.MethodURI = spemitUnknownMethods[rng.Intn(len(spemitUnknownMethods))]
 	default:
 		c.MethodURI = spemitMethodURI[v.Cfg.Method]
+		if v.Cfg.MForm != "" && v.Cfg.MForm != "exact" {
+			c.MethodBase = c.MethodURI
+			near := spemitNearMethods(v.Cfg.MForm, c.MethodBase)
+			c.MethodURI = near[rng.Intn(len(near))]
+		}
+	}
+	if v.In.Kind != "artifact" {
+		c.DestURL = spemitEndpoint(spemitLocations[spemitSvc(v.In.Kind)][v.destClass()], c.Query)
+	}
+	if v.destClass() != "first" || v.In.Swap {
+		c.OneStep = false // the one-step functions pass the metadata's first location and render at once
 	}
 	return c
 }
@@ -278,16 +348,38 @@ func spemitEndpoint(base, query string) string {
 	return base + "?" + query
 }
 
-// spemitIdpMetadata is gen.go's idpMetadata with a query string on the SSO / SLO locations.
-func spemitIdpMetadata(query string) *saml.EntityDescriptor {
+// spemitIdpMetadata is gen.go's idpMetadata with two locations per service and binding (spec: MdAtCreate).
+// The location the message is made for (dest: first | second; none of them for custom) carries query, the
+// others spemitOtherQuery.
+func spemitIdpMetadata(dest, query string) *saml.EntityDescriptor {
+	q := func(at string) string {
+		if at == dest || (dest == "" && at == "first") {
+			return query
+		}
+		return spemitOtherQuery
+	}
+	return spemitIdpMetadataAt("first", q("first"), "second", q("second"))
+}
+
+// spemitIdpMetadataReplaced is what the application installs later (spec: MdReplaced).
+func spemitIdpMetadataReplaced() *saml.EntityDescriptor {
+	return spemitIdpMetadataAt("moved", spemitOtherQuery, "moved2", spemitOtherQuery)
+}
+
+func spemitIdpMetadataAt(at1, q1, at2, q2 string) *saml.EntityDescriptor {
 	md := idpMetadata([]keyUse{{"signing", key("idp1").CertB64()}})
 	d := &md.IDPSSODescriptors[0]
-	for i := range d.SingleSignOnServices {
-		d.SingleSignOnServices[i].Location = spemitEndpoint(idpSSOURL, query)
+	eps := func(svc string) []saml.Endpoint {
+		var out []saml.Endpoint
+		for _, l := range [][2]string{{at1, q1}, {at2, q2}} {
+			for _, b := range []string{saml.HTTPRedirectBinding, saml.HTTPPostBinding} {
+				out = append(out, saml.Endpoint{Binding: b, Location: spemitEndpoint(spemitLocations[svc][l[0]], l[1])})
+			}
+		}
+		return out
 	}
-	for i := range d.SingleLogoutServices {
-		d.SingleLogoutServices[i].Location = spemitEndpoint(idpSLOURL, query)
-	}
+	d.SingleSignOnServices = eps("sso")
+	d.SingleLogoutServices = eps("slo")
 	return md
 }
 
@@ -299,7 +391,7 @@ func spemitSP(v *spemitVec, c *spemitConc) *saml.ServiceProvider {
 		MetadataURL:       mustURL(spMetadata),
 		AcsURL:            mustURL(spACS),
 		SloURL:            mustURL(spSLO),
-		IDPMetadata:       spemitIdpMetadata(c.Query),
+		IDPMetadata:       spemitIdpMetadata(v.In.Dest, c.Query),
 		SignatureMethod:   c.MethodURI,
 		AuthnNameIDFormat: spemitNidFormats[v.Cfg.NidFmt],
 		LogoutBindings:    []string{saml.HTTPPostBinding, saml.HTTPRedirectBinding},
@@ -334,6 +426,7 @@ func spemitIssuer(c *spemitConc) string {
 type spemitEmission struct {
 	URL      string // redirect binding: the URL as it goes into the Location header
 	Form     []byte // POST binding: the HTML document
+	XML      []byte // binding "element": the serialised element (Element() / Bytes() / inflated Deflate())
 	Element  *etree.Element
 	SOAP     []byte
 	Err      error
@@ -366,6 +459,20 @@ func spemitEmit(s *saml.ServiceProvider, v *spemitVec, c *spemitConc) *spemitEmi
 		}
 	}
 	b := spemitBindingURI(v.In.Binding)
+	// the idpURL handed to Make*: the metadata's first location for the binding (what the one-step functions
+	// pass), or the URL the case names
+	dest := func(first string) string {
+		if c.DestURL != "" {
+			return c.DestURL
+		}
+		return first
+	}
+	// between the two steps of the API the application may install new IdP metadata
+	replace := func() {
+		if v.In.Swap {
+			s.IDPMetadata = spemitIdpMetadataReplaced()
+		}
+	}
 	p, msg := safely(func() {
 		switch v.In.Kind {
 		case "authn":
@@ -377,12 +484,13 @@ func spemitEmit(s *saml.ServiceProvider, v *spemitVec, c *spemitConc) *spemitEmi
 				}
 				return
 			}
-			req, err := s.MakeAuthenticationRequest(s.GetSSOBindingLocation(b), b, saml.HTTPPostBinding)
+			req, err := s.MakeAuthenticationRequest(dest(s.GetSSOBindingLocation(b)), b, saml.HTTPPostBinding)
 			if err != nil || req == nil {
 				e.Err, e.Produced = err, req != nil
 				return
 			}
 			e.KnownID = req.ID
+			replace()
 			if v.In.Binding == "redirect" {
 				setURL(req.Redirect(c.Relay, s))
 			} else {
@@ -397,12 +505,13 @@ func spemitEmit(s *saml.ServiceProvider, v *spemitVec, c *spemitConc) *spemitEmi
 				}
 				return
 			}
-			req, err := s.MakeLogoutRequest(s.GetSLOBindingLocation(b), c.NameID)
+			req, err := s.MakeLogoutRequest(dest(s.GetSLOBindingLocation(b)), c.NameID)
 			if err != nil || req == nil {
 				e.Err, e.Produced = err, req != nil
 				return
 			}
 			e.KnownID = req.ID
+			replace()
 			if v.In.Binding == "redirect" {
 				setURL(req.Redirect(c.Relay), nil)
 			} else {
@@ -417,12 +526,13 @@ func spemitEmit(s *saml.ServiceProvider, v *spemitVec, c *spemitConc) *spemitEmi
 				}
 				return
 			}
-			resp, err := s.MakeLogoutResponse(s.GetSLOBindingLocation(b), c.GivenID)
+			resp, err := s.MakeLogoutResponse(dest(s.GetSLOBindingLocation(b)), c.GivenID)
 			if err != nil || resp == nil {
 				e.Err, e.Produced = err, resp != nil
 				return
 			}
 			e.KnownID = resp.ID
+			replace()
 			if v.In.Binding == "redirect" {
 				setURL(resp.Redirect(c.Relay), nil)
 			} else {
@@ -455,7 +565,8 @@ func spemitEmit(s *saml.ServiceProvider, v *spemitVec, c *spemitConc) *spemitEmi
 type spemitParam struct {
 	Name, Value       string
 	RawName, RawValue string
-	OK                bool // both parts percent-decode
+	rawEq             string // "=" when the pair was written with one
+	OK                bool   // both parts percent-decode
 }
 
 // spemitPctDecode is application/x-www-form-urlencoded decoding: '+' is a space,
@@ -503,7 +614,7 @@ func spemitParseQuery(raw string) []spemitParam {
 		}
 		p := spemitParam{RawName: piece}
 		if i := strings.IndexByte(piece, '='); i >= 0 {
-			p.RawName, p.RawValue = piece[:i], piece[i+1:]
+			p.RawName, p.RawValue, p.rawEq = piece[:i], piece[i+1:], "="
 		}
 		n, ok1 := spemitPctDecode(p.RawName)
 		val, ok2 := spemitPctDecode(p.RawValue)
@@ -537,6 +648,18 @@ func spemitForeign(ps []spemitParam) string {
 	}
 	sort.Strings(out)
 	return strings.Join(out, ";")
+}
+
+// spemitForeignRaw joins, as written and in order, the parameters that are not the binding's own: the
+// query string of the URL the user agent is sent to.
+func spemitForeignRaw(ps []spemitParam) string {
+	var out []string
+	for _, p := range ps {
+		if !spemitOwnNames[p.Name] {
+			out = append(out, p.RawName+p.rawEq+p.RawValue)
+		}
+	}
+	return strings.Join(out, "&")
 }
 
 func spemitSortedPairs(s string) string {
@@ -793,9 +916,14 @@ func spemitCheckMessage(root *etree.Element, v *spemitVec, c *spemitConc, knownI
 		want("Issuer", iss[0].Text(), spemitIssuer(c))
 	}
 	dest, _ := spemitAttr(root, "Destination")
+	// the message names the idpURL it was made for
+	given := c.DestURL
+	if given == "" && v.In.Kind != "artifact" { // replay files written before round 3
+		given = spemitEndpoint(spemitLocations[spemitSvc(v.In.Kind)]["first"], c.Query)
+	}
 	switch v.In.Kind {
 	case "authn":
-		want("Destination", dest, spemitEndpoint(idpSSOURL, c.Query))
+		want("Destination", dest, given)
 		acs, _ := spemitAttr(root, "AssertionConsumerServiceURL")
 		want("AssertionConsumerServiceURL", acs, spACS)
 		pb, _ := spemitAttr(root, "ProtocolBinding")
@@ -843,7 +971,7 @@ func spemitCheckMessage(root *etree.Element, v *spemitVec, c *spemitConc, knownI
 			bad = append(bad, "RequestedAuthnContext: present")
 		}
 	case "logoutreq":
-		want("Destination", dest, spemitEndpoint(idpSLOURL, c.Query))
+		want("Destination", dest, given)
 		nid := spemitChild(root, nsAssertion, "NameID")
 		if len(nid) != 1 {
 			bad = append(bad, fmt.Sprintf("NameID: %d elements", len(nid)))
@@ -859,7 +987,7 @@ func spemitCheckMessage(root *etree.Element, v *spemitVec, c *spemitConc, knownI
 			}
 		}
 	case "logoutresp":
-		want("Destination", dest, spemitEndpoint(idpSLOURL, c.Query))
+		want("Destination", dest, given)
 		irt, _ := spemitAttr(root, "InResponseTo")
 		want("InResponseTo", irt, c.GivenID)
 		st := spemitChild(root, nsProtocol, "Status")
@@ -1187,14 +1315,14 @@ type spemitIdpResult struct {
 	ID, RelayState, ACS   string
 }
 
-func spemitFeedIdP(ssoURL string, spMD *saml.EntityDescriptor, r *http.Request) spemitIdpResult {
+func spemitFeedIdP(ssoURL url.URL, spMD *saml.EntityDescriptor, r *http.Request) spemitIdpResult {
 	var res spemitIdpResult
 	idpKey := key("idp1")
 	idp := &saml.IdentityProvider{
 		Key:                     idpKey.Key,
 		Certificate:             idpKey.Cert,
 		MetadataURL:             mustURL(idpEntityID),
-		SSOURL:                  mustURL(ssoURL),
+		SSOURL:                  ssoURL,
 		ServiceProviderProvider: spemitSPProvider{spMD},
 	}
 	p, msg := safely(func() {
